@@ -12,7 +12,7 @@ CLAUSE_PROPS = {"steps": ["C18"], "window_short": ["C18"], "obs": ["C18"], "shap
                 "quotes": ["C18"], "rate": ["C18"], "construct": ["C18"], "table": []}
 
 
-_CLK = {"intraday": False}
+_CLK = {"intraday": False, "day1": DAY1}
 
 
 def D(d):
@@ -21,14 +21,14 @@ def D(d):
     if _CLK["intraday"]:
         k = int(d)
         return DAY1 + timedelta(hours=8 + k // 2, seconds=30 * (k % 2))
-    return DAY1 + timedelta(days=int(d) - 1)
+    return _CLK["day1"] + timedelta(days=int(d) - 1)
 
 
 def NUM(t):
     if _CLK["intraday"]:
         dt = t - DAY1 - timedelta(hours=8)
         return 2 * int(dt.total_seconds() // 3600) + (1 if int(dt.total_seconds()) % 3600 else 0)
-    return int((t - DAY1).days) + 1
+    return int((t - _CLK["day1"]).days) + 1
 
 
 def holidays_in(ndays, calendar="NYSE"):
@@ -76,7 +76,8 @@ def tables(p, seed_shift=0.0):
                       "f1": [((d * 11) % 19) / 4.0 - 2.0 for d in dx]}, index=pd.DatetimeIndex([D(d) for d in dx]))
     Y = pd.DataFrame({"AAA": [100.0 + ((d * 7) % 13) for d in dy], "BBB": [50.0 + ((d * 5) % 11) for d in dy]},
                      index=pd.DatetimeIndex([D(d) for d in dy]))
-    rate = pd.Series([0.01 + (d % 5) * 0.001 for d in dy], index=Y.index, name="rate")
+    # the reference rate path crosses zero: 0 and negative values are rates like any other
+    rate = pd.Series([[0.02, 0.01, 0.0, -0.0025, 0.005][d % 5] for d in dy], index=Y.index, name="rate")
     return X, Y, rate
 
 
@@ -106,6 +107,7 @@ def replay_chunk(ctx, texts):
     out = {"n": 0, "ops": 0, "fails": [], "classes": {}, "sample": None}
     trs = [None, "z-score", "yeo-johnson"]
     _CLK["intraday"] = bool(ctx.get("intraday"))
+    _CLK["day1"] = datetime(*ctx["day1"]) if ctx.get("day1") else DAY1
     for text in texts:
         s = tlaval.parse_state(text)
         p, o = s["p"], s["out"]
@@ -235,6 +237,17 @@ def c18(tier, seed):
     module, cfg, inv = model_small(nd, h2, {12, 5}, {4, 0}, [(0, 0), (61, 75), (64, 72)])
     explore.explore_and_replay(rep, "tabular-folds", module, cfg, ("harness.tabular_check", "replay_chunk"), {"holidays": h2},
                                owned, inv, [], chunk=2, workers=2)
+    # a range containing a one-off closure that is not in the exchange's holiday RULES (NYSE, 2018-12-05: national day of
+    # mourning): day 1 is Monday 2018-11-26, the closure is day 10
+    _CLK["day1"] = datetime(2018, 11, 26)
+    try:
+        nd = 19
+        ha = holidays_in(nd)
+        module, cfg, inv = model_small(nd, ha, {1, 2}, {0}, [(0, 0), (8, 15)])
+    finally:
+        _CLK["day1"] = DAY1
+    explore.explore_and_replay(rep, "tabular-adhoc-closure", module, cfg, ("harness.tabular_check", "replay_chunk"),
+                               {"holidays": ha, "day1": (2018, 11, 26)}, owned, inv, [], chunk=1, workers=2)
     # finer than daily: prices on the hour, feature rows on the hour and 30 s later (inside a latency of 60 s), episodes run
     # from the first stamp and in a later fold.  Index numbers are ranks (even: on the hour, odd: 30 s past the hour before).
     nt = 17
